@@ -202,19 +202,27 @@ void mmd_transclude_source(DString * source, const char * search_path, const cha
 				}
 			}
 
-			// Prevent infinite recursive loops
+			// Prevent infinite recursive loops -- compare canonical paths, so that
+			// another spelling of a file (e.g. `./foo.txt`) is still the same file
+			char * canonical = realpath(file_path->str, NULL);
+
+			if (canonical == NULL) {
+				canonical = my_strdup(file_path->str);
+			}
+
 			for (int i = 0; i < stack_depth; ++i) {
 				temp = stack_peek_index(parse_stack, i);
 
-				if (strcmp(file_path->str, temp) == 0) {
+				if (strcmp(canonical, temp) == 0) {
 					// We have parsed this file already, don't recurse infinitely
 					last_match += 2;
+					free(canonical);
 					goto finish_file;
 				}
 			}
 
 			// Add this file to stack
-			stack_push(parse_stack, file_path->str);
+			stack_push(parse_stack, canonical);
 
 			// Add file to the manifest?
 			if (manifest) {
@@ -269,7 +277,7 @@ void mmd_transclude_source(DString * source, const char * search_path, const cha
 			}
 
 			// Remove this file from stack
-			stack_pop(parse_stack);
+			free(stack_pop(parse_stack));
 
 finish_file:
 			d_string_free(file_path, true);
